@@ -334,13 +334,13 @@ def judge(ctx, route, spec, p, C0, stage, o, text, argv, dests, passed=()):
             ctx.count("union_owner_undecided_not_judged")
             return
     cls = "+".join(string_classes(v)) or "no-hostile-string"
-    nk = node.kind if node is not None else "?"
+    nk = (node.kind + (":" + str(node.extra) if node.kind == "reg" else "")) if node is not None else "?"
     sig = f"{fam}/differs/{nk}/{diff_class((steps_str(steps), reason))}/{cls}"
     ctx.violation("roundtrip", sig, dict(route=route, arg=key, hint=t.skel, at=steps_str(steps), why=reason, value=short(v, 500), text=short(text, 800)))
 
 
 def top_kinds(t):
-    return t.kind
+    return t.kind + (":" + str(t.extra) if t.kind == "reg" else "")
 
 
 def lossless_skip_null(C0, spec):
